@@ -23,6 +23,7 @@ package playback
 import (
 	"encoding/binary"
 	"encoding/json"
+	"errors"
 	"fmt"
 	"net/http"
 	"net/url"
@@ -33,6 +34,7 @@ import (
 	"sort"
 	"strings"
 	"sync"
+	"sync/atomic"
 	"testing"
 	"time"
 
@@ -145,6 +147,7 @@ var (
 	c28BaseOnce sync.Once
 	c28Bases    []c28Base
 	c28BaseErr  error
+	c28BaseLog  []string
 )
 
 // c28LoadBases records three small, fixed recordings once per process (read-only afterwards).
@@ -174,6 +177,7 @@ func c28LoadBases() ([]c28Base, error) {
 				c28BaseErr = err
 				return
 			}
+			c28BaseLog = append(c28BaseLog, built.Log...)
 			b := c28Base{Label: sp.label}
 			for _, se := range built.Sessions {
 				for _, p := range se.Segments {
@@ -398,6 +402,10 @@ func c28CheckAnswer(endpoint string, code int, hdr http.Header, body []byte) err
 	return nil
 }
 
+// c28OK counts the requests answered 200 (vacuity guard: a run in which no request ever reached the parsers of the
+// segment files has tested nothing).
+var c28OK atomic.Int64
+
 // c28Call calls a handler, recovering a panic of the calling goroutine.
 func c28Call(srv *Server, endpoint string, q url.Values) (err error) {
 	defer func() {
@@ -418,7 +426,52 @@ func c28Call(srv *Server, endpoint string, q url.Values) (err error) {
 	if e := c28CheckAnswer(endpoint, code, hdr, body); e != nil {
 		return fmt.Errorf("/%s?%s: %v", endpoint, q.Encode(), e)
 	}
+	if code == http.StatusOK {
+		c28OK.Add(1)
+	}
 	return nil
+}
+
+// c28Vacuity: the undamaged base recordings must be served (200) by /list and by /get at their first instant; when
+// not even one of those requests is answered 200 the battery cannot reach the code that reads segment files, and a
+// "no crash" result would be empty: VERIF-INCONCLUSIVE. (Whether the answers are RIGHT is the business of C27/C29.)
+func c28Vacuity(t rbTB, bases []c28Base) {
+	ok, total := 0, 0
+	var firstBad string
+	for _, b := range bases {
+		dir, err := os.MkdirTemp(os.Getenv("VERIF_WORKDIR"), "c28v-")
+		if err != nil {
+			rbInconclusive(t, "mkdtemp: %v", err)
+		}
+		pdir := filepath.Join(dir, rbPathName)
+		os.MkdirAll(pdir, 0o755) //nolint:errcheck
+		for _, sg := range b.Segs {
+			os.WriteFile(filepath.Join(pdir, sg.Name), sg.Data, 0o644) //nolint:errcheck
+		}
+		srv := rbNewServer(t, c28PathConfs(dir))
+		for _, rq := range []struct {
+			endpoint string
+			q        url.Values
+		}{
+			{"list", url.Values{"path": {rbPathName}}},
+			{"get", url.Values{"path": {rbPathName}, "start": {b.First.Format(time.RFC3339Nano)}, "duration": {"1h"}, "format": {"fmp4"}}},
+			{"get", url.Values{"path": {rbPathName}, "start": {b.First.Format(time.RFC3339Nano)}, "duration": {"1h"}, "format": {"mp4"}}},
+		} {
+			code, _, body := rbCall(srv, rq.endpoint, rq.q)
+			total++
+			if code == http.StatusOK {
+				ok++
+			} else if firstBad == "" {
+				firstBad = fmt.Sprintf("/%s on the undamaged recording %q: %d %.150q", rq.endpoint, b.Label, code, body)
+			}
+		}
+		srv.Close()
+		os.RemoveAll(dir)
+	}
+	if ok != total {
+		rbInconclusive(t, "vacuity guard: only %d of %d requests on undamaged recordings were answered 200 (%s): "+
+			"the battery does not reach the segment parsers", ok, total, firstBad)
+	}
 }
 
 func c28PathConfs(dir string) map[string]*conf.Path {
@@ -434,7 +487,11 @@ func c28PathConfs(dir string) map[string]*conf.Path {
 // c28Requests runs the fixed battery of requests against dir.
 func c28Requests(dir string, starts []time.Time) error {
 	pcs := c28PathConfs(dir)
-	srv := rbNewServer(pcs)
+	srv, err := rbNewServerAt("127.0.0.1:0", pcs)
+	if err != nil {
+		return err // wraps errRBBuilder: inconclusive (see c28Fail)
+	}
+	defer srv.Close()
 	if err := c28Call(srv, "list", url.Values{"path": {rbPathName}}); err != nil {
 		return err
 	}
@@ -497,17 +554,36 @@ func c28Guarded(dir string, starts []time.Time, desc string) error {
 	}
 }
 
+// c28Bases calibrates the harness, records the base material and applies the vacuity guard; every failure here is
+// a failure of the harness (VERIF-INCONCLUSIVE), never a verdict about C28.
+func c28Setup(t rbTB) []c28Base {
+	rbCalibrate(t)
+	bases, err := c28LoadBases()
+	if err != nil {
+		rbInconclusive(t, "builder: %v", err)
+	}
+	c28Vacuity(t, bases)
+	return bases
+}
+
+// c28Fail reports err: a harness failure (server could not be started) is inconclusive, anything else a violation.
+func c28Fail(t rbTB, err error, format string, args ...any) {
+	if errors.Is(err, errRBBuilder) {
+		rbInconclusive(t, format, args...)
+	}
+	t.Fatalf(format, args...)
+}
+
 func TestVerifC28Survive(t *testing.T) {
 	rec := kit.R("TestVerifC28Survive")
 	t.Cleanup(kit.Flush)
 
-	bases, err := c28LoadBases()
-	if err != nil {
-		if strings.Contains(err.Error(), errRBTimeout.Error()) {
-			fmt.Println("VERIF-INCONCLUSIVE: " + err.Error())
-		}
-		t.Fatalf("recording builder: %v", err)
+	bases := c28Setup(t)
+	for _, l := range c28BaseLog {
+		rec.Note("recorder/stream log while building (informative): " + l)
 	}
+	ok0 := c28OK.Load()
+	cases := 0
 
 	rapid.Check(t, func(t *rapid.T) {
 		base := bases[rapid.IntRange(0, len(bases)-1).Draw(t, "base")]
@@ -628,8 +704,9 @@ func TestVerifC28Survive(t *testing.T) {
 
 		var m0, m1 runtime.MemStats
 		runtime.ReadMemStats(&m0)
+		cases++
 		if err := c28Guarded(dir, starts, d); err != nil {
-			t.Fatalf("%v\ncase: %s", err, d)
+			c28Fail(t, err, "%v\ncase: %s", err, d)
 		}
 		runtime.ReadMemStats(&m1)
 		if alloc := m1.TotalAlloc - m0.TotalAlloc; alloc > c28AllocLimit {
@@ -644,6 +721,14 @@ func TestVerifC28Survive(t *testing.T) {
 		sort.Strings(cl)
 		rec.Case(nontrivial, d, cl...)
 	})
+
+	// vacuity guard over the whole run: among the mutated directories (most keep intact segments next to the damaged
+	// ones) some request must have been answered 200
+	if n := c28OK.Load() - ok0; cases > 0 && n == 0 {
+		rbInconclusive(t, "vacuity guard: none of the requests of %d cases was answered 200", cases)
+	} else {
+		rec.Note(fmt.Sprintf("vacuity guard: %d requests answered 200 over %d cases", n, cases))
+	}
 }
 
 // Pinned: mvhd timescale overwritten with 0 in an otherwise intact segment.
@@ -651,10 +736,7 @@ func TestVerifC28RegressTimescaleZero(t *testing.T) {
 	if kit.Known(rbKeyTimescaleZero) {
 		t.Skip("listed as known finding")
 	}
-	bases, err := c28LoadBases()
-	if err != nil {
-		t.Fatalf("builder: %v", err)
-	}
+	bases := c28Setup(t)
 	dir, err := os.MkdirTemp(os.Getenv("VERIF_WORKDIR"), "c28r-")
 	if err != nil {
 		t.Fatal(err)
@@ -670,7 +752,8 @@ func TestVerifC28RegressTimescaleZero(t *testing.T) {
 	}
 	st, _ := rbSegStartFromName(sg.Name)
 	// /get only: in /list the same division runs in a goroutine and cannot be recovered
-	srv := rbNewServer(c28PathConfs(dir))
+	srv := rbNewServer(t, c28PathConfs(dir))
+	defer srv.Close()
 	q := url.Values{"path": {rbPathName}, "start": {st.Format(time.RFC3339Nano)}, "duration": {"10"}}
 	if err := c28Call(srv, "get", q); err != nil {
 		t.Errorf("segment with mvhd timescale 0: %v", err)
@@ -682,10 +765,7 @@ func TestVerifC28RegressHugeMoovSize(t *testing.T) {
 	if kit.Known(c28KeyAllocOwn) {
 		t.Skip("listed as known finding")
 	}
-	bases, err := c28LoadBases()
-	if err != nil {
-		t.Fatalf("builder: %v", err)
-	}
+	bases := c28Setup(t)
 	dir, err := os.MkdirTemp(os.Getenv("VERIF_WORKDIR"), "c28r-")
 	if err != nil {
 		t.Fatal(err)
@@ -700,7 +780,8 @@ func TestVerifC28RegressHugeMoovSize(t *testing.T) {
 	if err := os.WriteFile(filepath.Join(pdir, sg.Name), data, 0o644); err != nil {
 		t.Fatal(err)
 	}
-	srv := rbNewServer(c28PathConfs(dir))
+	srv := rbNewServer(t, c28PathConfs(dir))
+	defer srv.Close()
 	var m0, m1 runtime.MemStats
 	runtime.ReadMemStats(&m0)
 	if err := c28Call(srv, "list", url.Values{"path": {rbPathName}}); err != nil {
@@ -718,10 +799,7 @@ func TestVerifC28RegressTrunCount(t *testing.T) {
 	if kit.Known(c28KeyAlloc) {
 		t.Skip("listed as known finding")
 	}
-	bases, err := c28LoadBases()
-	if err != nil {
-		t.Fatalf("builder: %v", err)
-	}
+	bases := c28Setup(t)
 	dir, err := os.MkdirTemp(os.Getenv("VERIF_WORKDIR"), "c28r-")
 	if err != nil {
 		t.Fatal(err)
@@ -737,15 +815,15 @@ func TestVerifC28RegressTrunCount(t *testing.T) {
 	}
 	st, _ := rbSegStartFromName(sg.Name)
 	if err := c28Guarded(dir, []time.Time{st}, "first traf of an intact segment retagged as trun"); err != nil {
+		if errors.Is(err, errRBBuilder) {
+			rbInconclusive(t, "%v", err)
+		}
 		t.Errorf("%v", err)
 	}
 }
 
 func c28RegressRetag(t *testing.T, boxType string) {
-	bases, err := c28LoadBases()
-	if err != nil {
-		t.Fatalf("builder: %v", err)
-	}
+	bases := c28Setup(t)
 	dir, err := os.MkdirTemp(os.Getenv("VERIF_WORKDIR"), "c28r-")
 	if err != nil {
 		t.Fatal(err)
@@ -757,14 +835,15 @@ func c28RegressRetag(t *testing.T, boxType string) {
 	data := append([]byte(nil), sg.Data...)
 	bs := c28BoxesOf(sg.Info, boxType)
 	if len(bs) == 0 {
-		t.Fatalf("harness: no %s box", boxType)
+		rbInconclusive(t, "harness: no %s box", boxType)
 	}
 	copy(data[bs[0].Off+4:], "free") // the first part's box becomes a free box: sizes stay consistent
 	if err := os.WriteFile(filepath.Join(pdir, sg.Name), data, 0o644); err != nil {
 		t.Fatal(err)
 	}
 	st, _ := rbSegStartFromName(sg.Name)
-	srv := rbNewServer(c28PathConfs(dir))
+	srv := rbNewServer(t, c28PathConfs(dir))
+	defer srv.Close()
 	for _, format := range []string{"fmp4", "mp4"} {
 		q := url.Values{"path": {rbPathName}, "start": {st.Format(time.RFC3339Nano)}, "duration": {"10"}, "format": {format}}
 		if err := c28Call(srv, "get", q); err != nil {
@@ -789,10 +868,7 @@ func TestVerifC28RegressMissingTfhd(t *testing.T) {
 
 // FuzzVerifC28Segment: the fuzzed bytes are the only segment of the path.
 func FuzzVerifC28Segment(f *testing.F) {
-	bases, err := c28LoadBases()
-	if err != nil {
-		f.Fatalf("recording builder: %v", err)
-	}
+	bases := c28Setup(f)
 	f.Add([]byte{})
 	for _, b := range bases {
 		f.Add(b.Segs[0].Data)
@@ -832,7 +908,7 @@ func FuzzVerifC28Segment(f *testing.F) {
 		var m0, m1 runtime.MemStats
 		runtime.ReadMemStats(&m0)
 		if err := c28Requests(dir, []time.Time{st}); err != nil {
-			t.Fatalf("%v", err)
+			c28Fail(t, err, "%v", err)
 		}
 		runtime.ReadMemStats(&m1)
 		if alloc := m1.TotalAlloc - m0.TotalAlloc; alloc > c28AllocLimit {
